@@ -126,11 +126,12 @@ impl Op {
         matches!(self, Op::Delete { .. } | Op::DeleteAll | Op::Update { .. } | Op::Merge { .. })
     }
 
-    /// commits the op makes before its own transaction (compaction reserves fragment ids first);
-    /// they change nothing visible and stay even when the op itself fails
+    /// commits the op may make before its own transaction (compaction reserves fragment ids with
+    /// ReserveFragments transactions); they change nothing visible and stay even when the op fails
+    /// (upper bound: one reservation per compaction task)
     pub fn pre_commits(&self) -> u64 {
         match self {
-            Op::Compact { .. } => 1,
+            Op::Compact { .. } => 4,
             _ => 0,
         }
     }
@@ -947,7 +948,7 @@ impl World {
         };
         let cls = |k: &str| class_of(k).to_string();
         let between_kinds = uniq(between.iter().filter(|c| c.kind != "reserve").map(|c| cls(&c.kind)).collect());
-        let mine = eff.touched();
+        let mine = effective(&eff, &between).touched();
         let clash_kinds = uniq(
             between
                 .iter()
@@ -1048,12 +1049,16 @@ impl World {
                     // nothing to do, nothing committed
                     out.outcome = "ok-nocommit".into();
                 } else {
-                    if ver != prev_version + 1 + op.pre_commits() {
+                    if ver <= prev_version || ver > prev_version + 1 + op.pre_commits() {
                         violate!(
                             prop.owns_serial(),
                             "version",
                             keyf("version-not-latest-plus-one"),
-                            format!("Ok but latest version is {ver}, expected {}", prev_version + 1 + op.pre_commits())
+                            format!(
+                                "Ok but latest version is {ver}, expected {}..={}",
+                                prev_version + 1,
+                                prev_version + 1 + op.pre_commits()
+                            )
                         );
                         out.outcome = "violation".into();
                         self.dead = true;
